@@ -44,6 +44,7 @@ def ref_chunked_decode(data):
         e = data.find(CRLF, off)
         if e < 0: return None
         line = data[off:e]
+        if len(line) + 2 > 4096: return None          # the reader's line buffer is 4 KB: longer size lines are outside the valid class
         m = re.match(rb'^([0-9a-fA-F]{1,15})(;[^\r\n]*)?$', line)
         if not m: return None
         n = int(m.group(1), 16)
@@ -144,7 +145,7 @@ def all_splits(n, maxpieces):
 class Check(DiffCheck):
     id = 'C13'
     coq_dirs = ['Base', 'C13']
-    coq_targets = ['C13/C13_Statements.vo']
+    coq_targets = ['C13/C13_Statements.vo', 'C13/C13_ChunkSafe.vo']
     properties_v = 'C13/C13_Properties.v'
     extract_v = 'C13/C13_Extract.v'
     runner_ml = 'ocaml/C13_run.ml'
@@ -543,6 +544,23 @@ class Check(DiffCheck):
         f = case.split(' ')
         if out.startswith('CRASH'): return 'implementation crashed / sanitizer report: ' + out
         if 'STEPBOUND' in out: return 'endless loop: more than 20000 reads returned data'
+        if f[0] in ('W', 'X'):
+            m = re.match(r'^([WX]) ((?:-?\d+;)*) (?:close=(-?\d+) )?out=(\S+)$', out)
+            if not m: return 'unparsable output %r' % out[:200]
+            rets = [int(x) for x in m.group(2).split(';') if x]
+            ws = [unhx(w) for w in (f[-1].split(',') if f[-1] != '-' else [])]
+            wire = unhx(m.group(4))
+            if f[0] == 'W':
+                size, budget = int(f[1]), int(f[2])
+                exp = b''.join(ws)[:size]
+                if budget >= len(exp) and (wire != exp or any(r < 0 for r in rets)): return 'fixed-length writer: wire differs from the first `size` bytes written'
+                if not exp.startswith(wire): return 'fixed-length writer wrote bytes that were not given to it'
+            else:
+                budget = int(f[1])
+                exp = b''.join(b'%x\r\n%s\r\n' % (len(w), w) for w in ws) + b'0\r\n\r\n'
+                if budget >= len(exp) and (wire != exp or rets != [len(w) for w in ws] or m.group(3) != '0'): return 'chunked writer: unexpected wire bytes / return values'
+                if not exp.startswith(wire): return 'chunked writer wrote bytes that are not a prefix of the encoding'
+            return None
         try: d = parse_out(out)
         except Exception as e: return 'unparsable output %r' % out[:200]
         reads = d['reads']
